@@ -2,6 +2,7 @@ package fw
 
 import (
 	"fmt"
+	"go/types"
 	"strings"
 
 	"golang.org/x/tools/go/ssa"
@@ -51,4 +52,121 @@ func DumpFunc(p *Program, spec string) {
 		}
 	}
 	visit(fn)
+}
+
+// DumpPanics lists every explicit panic of the repository with its dominating conditions.
+func DumpPanics(p *Program) {
+	for _, fn := range p.SrcFuncs() {
+		for _, b := range fn.Blocks {
+			for _, ins := range b.Instrs {
+				if pn, ok := ins.(*ssa.Panic); ok {
+					var conds []string
+					for _, f := range DomConds(b) {
+						conds = append(conds, f.String())
+					}
+					fmt.Printf("%s %s\n    if: %s\n", p.Pos(InstrPos(pn)), FuncName(fn), strings.Join(conds, " && "))
+				}
+			}
+		}
+	}
+}
+
+// IndexSite is an index or slice operation on a string / byte slice.
+type IndexSite struct {
+	Fn      *ssa.Function
+	Instr   ssa.Instruction
+	Base    string
+	Index   string
+	Kind    string // "index" | "slice"
+	Guarded bool
+}
+
+// IndexSites lists index/slice operations on strings and byte slices in fn with a simple
+// guard recogniser: the access is guarded if a dominating condition compares the same index
+// expression (or one at least as large) with len(base), or the index is a range-loop variable.
+func IndexSites(fn *ssa.Function) []IndexSite {
+	var out []IndexSite
+	for _, b := range fn.Blocks {
+		for _, ins := range b.Instrs {
+			var base, idx ssa.Value
+			kind := ""
+			var lo, hi ssa.Value
+			switch x := ins.(type) {
+			case *ssa.IndexAddr:
+				base, idx, kind = x.X, x.Index, "index"
+			case *ssa.Index:
+				base, idx, kind = x.X, x.Index, "index"
+			case *ssa.Lookup:
+				if _, isMap := x.X.Type().Underlying().(*types.Map); isMap {
+					continue
+				}
+				base, idx, kind = x.X, x.Index, "index"
+			case *ssa.Slice:
+				base, kind = x.X, "slice"
+				lo, hi = x.Low, x.High
+			default:
+				continue
+			}
+			if !isByteSeqT(base.Type()) {
+				continue
+			}
+			s := IndexSite{Fn: fn, Instr: ins, Base: Sig(base), Kind: kind}
+			if kind == "index" {
+				s.Index = Sig(idx)
+			} else {
+				l, h := "", ""
+				if lo != nil {
+					l = Sig(lo)
+				}
+				if hi != nil {
+					h = Sig(hi)
+				}
+				s.Index = l + ":" + h
+			}
+			// guard recogniser
+			for _, f := range DomConds(b) {
+				c := f.String()
+				lenB := "builtin.len(" + s.Base + ")"
+				if kind == "index" {
+					if c == "("+s.Index+" < "+lenB+")" || c == "!("+s.Index+" >= "+lenB+")" || c == "("+lenB+" > "+s.Index+")" {
+						s.Guarded = true
+					}
+				}
+			}
+			if _, isArr := base.Type().Underlying().(*types.Pointer); isArr {
+				// pointer to array: constant indexes are checked by the compiler
+				if _, isC := idx.(*ssa.Const); isC {
+					s.Guarded = true
+				}
+			}
+			out = append(out, s)
+		}
+	}
+	return out
+}
+
+func isByteSeqT(t types.Type) bool {
+	switch u := t.Underlying().(type) {
+	case *types.Basic:
+		return u.Info()&types.IsString != 0
+	case *types.Slice:
+		b, ok := u.Elem().Underlying().(*types.Basic)
+		return ok && (b.Kind() == types.Byte || b.Kind() == types.Uint8)
+	}
+	return false
+}
+
+
+// DumpIndexSites prints the index sites of a function.
+func DumpIndexSites(p *Program, spec string) {
+	fn := p.Func(spec)
+	if fn == nil {
+		fmt.Println("not found", spec)
+		return
+	}
+	for _, f := range FamilyOf(fn) {
+		for _, s := range IndexSites(f) {
+			fmt.Printf("%s %s %s %s[%s] guarded=%v\n", p.Pos(InstrPos(s.Instr)), FuncName(f), s.Kind, s.Base, s.Index, s.Guarded)
+		}
+	}
 }
